@@ -75,6 +75,9 @@ class C11(Prop):
             yield {"k": rng.choice(["vt", "obj"]), "e": e, "vb": vb, "al": al, "mo": mo}
         for _ in range(n // 2):
             yield self._doc(rng)
+        # nested svg: preserveAspectRatio is not inherited - an inner svg without one uses xMidYMid meet whatever its ancestor says
+        for _ in range(max(60, n // 20)):
+            yield self._nested(rng)
         for _ in range(40):
             e = [0.0, 0.0, rng.choice([0.0, 100.0]), rng.choice([0.0, 50.0])]
             vb = [0.0, 0.0, rng.choice([0.0, 10.0]), rng.choice([0.0, 20.0])]
@@ -114,6 +117,16 @@ class C11(Prop):
         rect = [round(rng.uniform(-50, 50), 1), round(rng.uniform(-50, 50), 1), float(rng.randint(1, 80)), float(rng.randint(1, 80))]
         return {"k": "doc", "vb": vb, "al": al, "mo": mo, "ppi": ppi, "wa": wa, "ha": ha, "cw": cw, "ch": ch,
                 "e": [0.0, 0.0, ew, eh], "rect": rect, "route": route}
+
+    def _nested(self, rng):
+        outer_al = rng.choice(["none", "xMinYMin", "xMaxYMax slice", "xMidYMid slice", "xMinYMax meet"])
+        inner_al = rng.choice([None, None, None] + ALIGNS)
+        inner_mo = rng.choice(MODES) if inner_al is not None else None
+        e = [float(rng.randint(-20, 20)), float(rng.randint(-20, 20)), float(rng.choice([30, 60, 100])), float(rng.choice([20, 45, 90]))]
+        vb = [origin(rng), origin(rng), float(rng.choice([10, 40, 25])), float(rng.choice([10, 80, 15]))]
+        rect = [round(rng.uniform(-5, 5), 1), round(rng.uniform(-5, 5), 1), float(rng.randint(1, 8)), float(rng.randint(1, 8))]
+        return {"k": "nested", "outer_al": outer_al, "al": inner_al, "mo": inner_mo, "e": e, "vb": vb, "rect": rect,
+                "wrap": rng.random() < 0.5}
 
     def tag(self, case):
         t = [case["k"]]
@@ -162,6 +175,18 @@ class C11(Prop):
                 rects = [e for e in svg.elements() if isinstance(e, Rect)]
                 bb = list(rects[0].bbox()) if rects else None
                 return {"m": mlist(m), "bbox": bb, "size": [float(svg.width), float(svg.height)], "doc": doc}
+            if k == "nested":
+                e, vb, r = case["e"], case["vb"], case["rect"]
+                par = self._par(case)
+                inner = '<svg x="%r" y="%r" width="%r" height="%r" viewBox="%r %r %r %r"%s><rect x="%r" y="%r" width="%r" height="%r"/></svg>' % (
+                    tuple(e) + tuple(vb) + ((' preserveAspectRatio="%s"' % par) if par else "",) + tuple(r))
+                if case["wrap"]:
+                    inner = "<g>" + inner + "</g>"
+                doc = ('<svg xmlns="http://www.w3.org/2000/svg" width="200" height="200" viewBox="0 0 200 200" '
+                       'preserveAspectRatio="%s">%s</svg>') % (case["outer_al"], inner)
+                svg = SVG.parse(io.StringIO(doc), reify=True)
+                rects = [x for x in svg.elements() if isinstance(x, Rect)]
+                return {"bbox": list(rects[0].bbox()) if rects else None, "doc": doc}
             if k == "zero":
                 e, vb = case["e"], case["vb"]
                 doc = ('<svg xmlns="http://www.w3.org/2000/svg" width="%r" height="%r" viewBox="%r %r %r %r">'
@@ -180,7 +205,7 @@ class C11(Prop):
     # ---------------------------------------------------------------- model
     def model_ops(self, case):
         k = case["k"]
-        if k in ("vt", "obj", "doc"):
+        if k in ("vt", "obj", "doc", "nested"):
             par = self._par(case)
             return ["c11.vt\t%s\t%s\t%s" % (" ".join(fhex(x) for x in case["e"]), " ".join(fhex(x) for x in case["vb"]),
                                            shex(par) if par is not None else "-")]
@@ -198,6 +223,15 @@ class C11(Prop):
             if outs[0] != "OK disabled" or obs["nshapes"] != 0:
                 return [Mismatch(stream="c11.zero", case=case, impl=obs, model=outs[0])]
             return []
+        if k == "nested":
+            mo = parse_floats(outs[0])
+            if isinstance(mo, str) or obs.get("bbox") is None:
+                return [Mismatch(stream="c11.nested", case=case, impl=obs, model=outs[0])]
+            r = case["rect"]
+            want = [mo[0] * r[0] + mo[4], mo[3] * r[1] + mo[5], mo[0] * (r[0] + r[2]) + mo[4], mo[3] * (r[1] + r[3]) + mo[5]]
+            if max(abs(a - b) for a, b in zip(obs["bbox"], want)) > 1e-7 * max(1.0, max(abs(v) for v in want)):
+                return [Mismatch(stream="c11.nested", case=case, impl=obs["bbox"], model=want)]
+            return []
         mo = parse_floats(outs[0])
         if isinstance(mo, str) or not mclose(obs["m"], mo, case):
             return [Mismatch(stream="c11." + k, case=case, impl=obs["m"], model=mo)]
@@ -212,6 +246,15 @@ class C11(Prop):
         if k == "zero":
             if obs["nshapes"] != 0:
                 fs.append(Failure(what="zero-sized viewport/viewBox still rendered shapes", case=case, observed=obs))
+            return fs
+        if k == "nested":
+            sx, sy, tx, ty = spec_transform(case["e"], case["vb"], case["al"], case["mo"])
+            r = case["rect"]
+            want = [sx * r[0] + tx, sy * r[1] + ty, sx * (r[0] + r[2]) + tx, sy * (r[1] + r[3]) + ty]
+            if obs.get("bbox") is None or max(abs(a - b) for a, b in zip(obs["bbox"], want)) > 1e-7 * max(1.0, max(abs(v) for v in want)):
+                fs.append(Failure(what="nested svg (outer preserveAspectRatio=%s, inner %s): content not placed by the section 8.2 "
+                                       "transform of the inner svg's own attributes" % (case["outer_al"], self._par(case)),
+                                  case=case, observed=obs.get("bbox"), expected=want))
             return fs
         if k == "incomplete":
             if not mclose(obs["m"], gen.IDENT, {"e": [0, 0, 1, 1], "vb": [0, 0, 1, 1]}):
